@@ -172,6 +172,15 @@ class Reconcile:
         else:  # because can replace AST at root node which has out_parent=None
             self.out.replace(code, trivia=trivia, **self.options)
 
+    def _orig_dict_keys(self, dictf: fst.FST) -> list[AST | None]:
+        """The `keys` of a `Dict` as they were when its children got their `pfield`s: for a node of the work tree the lists may have been edited in place since, the
+        marked copy still has them, another tree is taken as it is."""
+
+        if dictf.root is self.work:
+            return self.mark.child_from_path(self.work.child_path(dictf)).a.keys
+
+        return dictf.a.keys
+
     def recurse_slice_dict(self, node: AST, outf: fst.FST | None) -> None:  # TODO: refactor!
         """Recurse into a combined slice of a Dict's keys and values using slice operations to copy over formatting
         where possible (if not already there). Can be recursing an in-tree FST parent or a pure AST parent."""
@@ -199,7 +208,7 @@ class Reconcile:
                     else child_parent.a.__class__ is not Dict        # value parent is not Dict)
                 )
                 or (
-                    child_parent.a.keys[val_pfield.idx] is not None  # or (key associated with value is not None
+                    self._orig_dict_keys(child_parent)[val_pfield.idx] is not None  # or (key associated with value is not None
                     if (keya := keys[start]) is None                 # if our key is None, else
                     else (
                         not (keyf := getattr(keya, 'f', None))       # if key doesn't have FST
@@ -209,7 +218,7 @@ class Reconcile:
                 end = start + 1
 
             else:  # slice operation, even if its just one element because slice copies more formatting and comments
-                child_parent_keys = child_parent.a.keys
+                child_parent_keys = self._orig_dict_keys(child_parent)
                 child_idx = val_pfield.idx
                 child_off_idx = child_idx - start
 
@@ -240,6 +249,8 @@ class Reconcile:
 
                         slice = child_parent.get_slice(child_idx, child_idx - start + end, None,
                                                        trivia=self.trivia_fst_get)
+
+                        slice.verify()  # the links say nothing about primitives changed in that tree, the copied source must still be what the nodes say
 
                     except Exception:  # verification failed, need to do one AST at a time
                         pass
